@@ -89,7 +89,7 @@ class Daemon:
         l_cmd_r, l_cmd_w = mk(); l_res_r, l_res_w = mk()
         r_cmd_r, r_cmd_w = mk(); r_res_r, r_res_w = mk()
         c_cmd_r, c_cmd_w = mk(); c_res_r, c_res_w = mk()
-        cenv = {k: v for k, v in env.items() if k not in ("SYSSHIM_GATE",)}
+        cenv = {k: v for k, v in env.items() if k not in ("SYSSHIM_GATE",) or "SYSSHIM_GATEALL" in env}
         self.clean_pid = _spawn([os.path.join(home, "bin", "qmail-clean")], {0: c_cmd_r, 1: c_res_w, 2: log_w}, cenv, home)
         os.write(l_res_w, bytes([announce[0]])); os.write(r_res_w, bytes([announce[1]]))          # concurrency the spawners announce
         self.send_pid = _spawn([os.path.join(home, "bin", "qmail-send")],
